@@ -302,13 +302,13 @@ func (m *monitor) EnableKubeEventCb() {
 	verifhook.Yield("mon.EnableKubeEventCb.begin")
 	for _, informer := range m.ResourceInformers {
 		informer.enableKubeEventCb()
-		verifhook.Yield("mon.EnableKubeEventCb.nextInformer")
+		verifhook.Yield("mon.EnableKubeEventCb.nextInformer", informer.Namespace, informer.Name)
 	}
 	// Execute eventCb for events accumulated during "Synchronization" phase.
 	m.VaryingInformers.RangeValue(func(value []*resourceInformer) {
 		for _, informer := range value {
 			informer.enableKubeEventCb()
-			verifhook.Yield("mon.EnableKubeEventCb.nextInformer")
+			verifhook.Yield("mon.EnableKubeEventCb.nextInformer", informer.Namespace, informer.Name)
 		}
 	})
 	verifhook.Yield("mon.EnableKubeEventCb.beforeFlag")
